@@ -153,11 +153,27 @@ func c17Run(c *runner.Ctx) {
 		}
 		bases = append(bases, b)
 	}
+	var presetDrops []*roaring.Bitmap
+	if c.Idx%400 == 200 { // jumbo inputs whose terms survive in exactly 1023/1024/1025/2048 documents (+ a merged tiny input with 1-hit terms)
+		mc := genMergeCase(r, 3, c.Tier, c.TmpDir)
+		if mc.Err != nil {
+			c.Note(fmt.Sprintf("case %d: building the boundary inputs failed: %s", c.Idx, firstLine(mc.Err.Error())))
+			return
+		}
+		for _, b := range bases {
+			b.Close()
+		}
+		bases, presetDrops, k = mc.Inputs, mc.Drops, len(mc.Inputs)
+		c.Inc("boundary_cardinality_cases", 1)
+	}
 	// deletions
 	all := map[[2]int]bool{}
 	var dropDesc []string
 	for i, b := range bases {
 		d := gen.Drops(r, len(b.X.Docs), -1)
+		if presetDrops != nil {
+			d = presetDrops[i]
+		}
 		if d != nil {
 			it := d.Iterator()
 			for it.HasNext() {
